@@ -8,6 +8,7 @@ ops (ints reduced modulo the candidates):
   ['read', o, attr, reg]           reg := obj.attr
   ['write', o, attr, reg, const]   obj.attr = (reg + const) % 100 when reg was read from the same object, else const % 100
   ['flush']
+  ['create']                       create a new row E[10 + actor index] (a created object counts as locked by its session)
   ['commit']                       commit() in the middle of the db_session (ends the transaction, the session cache goes on)
   ['restart']                      leave db_session (commit) and enter a new one on the same Database
 A register is only usable in the transaction in which it was read.
@@ -107,6 +108,12 @@ def make_exec(case):
             for r in regs:
                 r[1] = None
             return rec
+        if name == 'create':
+            # a new object of the session (Pony treats objects it created like locked ones until the transaction ends)
+            pk = 10 + st.idx
+            st.objs[pk] = E(id=pk, a=0, b=0, c=0)
+            rec['eff'].append(['c', pk])
+            return rec
         pk = 1 + op[1] % nrows
         if name == 'lock':
             how = LOCK_HOWS[op[2] % len(LOCK_HOWS)]
@@ -194,6 +201,8 @@ def serial_results(initial, programs, owners=None):
             for e in programs[i]:
                 if e[0] == 'r':
                     regs[e[3]] = state[e[1]][e[2]]
+                elif e[0] == 'c':
+                    state[e[1]] = {'a': 0, 'b': 0, 'c': 0}
                 else:
                     _, pk, attr, reg, const = e[:5]
                     state[pk][attr] = ((regs[reg] if reg is not None else 0) + const) % 100
